@@ -105,10 +105,16 @@ type Ctx struct {
 	// NonTrivial lets a scenario without scheduling or faults (a clocked
 	// process) state its own non-triviality rule for the evidence count.
 	NonTrivial bool
+	// FailFilter, when set, decides which violations are recorded (a scenario
+	// that reuses another property's composite keeps only its own clauses).
+	FailFilter func(invariant, fingerprint string) bool
 }
 
 // Fail records a violation (the first one per fingerprint).
 func (c *Ctx) Fail(invariant, fingerprint, format string, a ...any) {
+	if c.FailFilter != nil && !c.FailFilter(invariant, fingerprint) {
+		return
+	}
 	for _, v := range c.Viols {
 		if v.Fingerprint == fingerprint {
 			return
